@@ -19,6 +19,10 @@ def _t(what):
 
 
 CLAIMED = {
+    "C01": (_t("tokenise -> encode -> decode -> detokenise on pieces given as explicit symbolic note lists (onsets, durations as symbolic members of the note values, velocities per bin) over the configuration lattice; notes, bar grid and duration compared with formulas of the input."), "4 C01"),
+    "C02": (_t("vocabulary bijection by a symbolic id over every configuration's whole vocabulary (solver-driven, complete enumeration), and closure of tokenise output for symbolic notes, rests and signatures."), "4 C02"),
+    "C03": (_t("real sequences_split_bars, then every composition of the bar list into call groups threading one state dictionary, compared with the single-call stream; plus the carried-clock lemma with an unbounded symbolic clock."), "4 C03"),
+    "C19": (_t("get_info against detokenise on every vocabulary stream up to the length bound, typed stream families and tokenise-produced streams (note placement identified by prefix difference through the public API)."), "4 C19"),
     "C04": ("Bounded symbolic model checking of ONE inductive step from every freshness state (each reached through public calls, the "
             "stale slot holding an unrelated sequence) over a 35-operation alphabet with symbolic arguments: readability, agreement of the "
             "two raw views, and independence of the result from the freshness state (differential). Covers histories of any length by "
